@@ -816,6 +816,15 @@ impl Check for C14 {
                             v.push(C14Case { bed, nchrom, items: 1500, opts: o.clone(), mode: m.clone(), part: None });
                         }
                     }
+                    // several zoom levels of 8 KiB and more each, staged in temporary files
+                    let mut oz = o.clone();
+                    oz.inmemory = false;
+                    oz.zoom = Zoom::Manual(vec![2, 4, 8]);
+                    for m in &modes {
+                        if !matches!(m, C14Mode::Crash) {
+                            v.push(C14Case { bed, nchrom, items: 1500, opts: oz.clone(), mode: m.clone(), part: None });
+                        }
+                    }
                 }
             }
             // section sizes swept so that the fill level of the 8 KiB writer buffers at the
